@@ -4,7 +4,7 @@
   `momentSpec` of `Polar/Dist.lean`.
 
   `get_moment` per family in the code:
-    Bernoulli        own formula: `return self.p` for every k (k = 0 included)          → mirrored
+    Bernoulli        own formula: `return One() if k == 0 else self.p`                   → mirrored
     Uniform          own formula: (b^(k+1) − a^(k+1)) / ((k+1)(b−a))                     → mirrored
     Exponential      own formula: factorial(k) / lamb^k                                  → mirrored
     Categorical      own loop:    m += i^k · p_i over enumerate(probabilities)           → mirrored
@@ -21,8 +21,8 @@ namespace Polar
 
 /-! ### `get_moment` -/
 
-/-- Bernoulli.get_moment(_) = p -/
-def bernoulliImpl (p : Rat) (_k : Nat) : Rat := p
+/-- Bernoulli.get_moment(k) = 1 if k == 0 else p  (repaired code, /repo 32294d7) -/
+def bernoulliImpl (p : Rat) (k : Nat) : Rat := if k = 0 then 1 else p
 
 /-- Uniform.get_moment(k) = (b^(k+1) − a^(k+1)) / ((k+1)·(b−a)) -/
 def uniformImpl (a b : Rat) (k : Nat) : Rat :=
